@@ -264,10 +264,11 @@ def isolate_prefix(pidns=False):
 
 
 def run_harness(cfg, action, out, **kw):
-    cmd = isolate_prefix(cfg.get('pidns', False)) + [os.path.join(RUN, 'lcv'), cfg['go'], action, '-out', out]
+    pre = isolate_prefix(cfg.get('pidns', False))
+    cmd = pre + [os.path.join(RUN, 'lcv'), cfg['go'], action, '-out', out]
     for k, v in kw.items():
         cmd += ['-' + k, str(v)]
-    rc, o = sh(cmd, timeout=cfg.get('gen_timeout', 1800), env=dict(GOENV, LCV_RUN=RUN, LCV_REPO=REPO),
+    rc, o = sh(cmd, timeout=cfg.get('gen_timeout', 1800), env=dict(GOENV, LCV_RUN=RUN, LCV_REPO=REPO, LCV_ISOLATED='1' if pre else ''),
                limit_mem=True)
     if rc != 0:
         raise Broken('harness %s failed rc=%d:\n%s' % (' '.join(cmd), rc, o[-4000:]))
